@@ -103,11 +103,12 @@ theorem blacklisted_alphabet (fp : Bytes) (hcls : ∀ c ∈ fp, c = 0 ∨ isClas
     intro c hc
     exact class_of_upper c (hcls c hc) (fpBytes_keyNat _ hk (upperAscii c) (List.mem_map.mpr ⟨c, hc, rfl⟩))
 
-/-- the low `k` bytes of `n` are all `N` (78), `1` (49) or `V` (86) and what remains is `0` (48):
-`n` is the key `"0" ++ upper f` of a fingerprint `f ∈ {n,1,v}^k` -/
+/-- the low `k` bytes of `n` are all `N` (78), `1` (49), `V` (86), `,` (44), `?` (63) or `:` (58) and what remains is
+`0` (48): `n` is the key `"0" ++ upper f` of a fingerprint over these six classes -/
 def n1Key : Nat → Nat → Bool
   | 0, n => Nat.beq n 48
-  | k+1, n => (Nat.beq (n % 256) 78 || Nat.beq (n % 256) 49 || Nat.beq (n % 256) 86) && n1Key k (n / 256)
+  | k+1, n => (Nat.beq (n % 256) 78 || Nat.beq (n % 256) 49 || Nat.beq (n % 256) 86 || Nat.beq (n % 256) 44 ||
+      Nat.beq (n % 256) 63 || Nat.beq (n % 256) 58) && n1Key k (n / 256)
 
 /-- an entry that would make a `{n,1,v}` fingerprint blacklisted -/
 def badEntry (e : Entry) : Bool := Nat.beq e.2.2 70 && Nat.ble 2 e.1 && n1Key (e.1 - 1) e.2.1
@@ -118,7 +119,7 @@ theorem benign_fingerprints_absent_table : (Gen.keywords.all fun e => !badEntry 
   decide +kernel
 
 
-theorem n1Key_keyNat_rev : ∀ (r : Bytes), (∀ u ∈ r, u = 78 ∨ u = 49 ∨ u = 86) → n1Key r.length (keyNat (48 :: r.reverse)) = true
+theorem n1Key_keyNat_rev : ∀ (r : Bytes), (∀ u ∈ r, u = 78 ∨ u = 49 ∨ u = 86 ∨ u = 44 ∨ u = 63 ∨ u = 58) → n1Key r.length (keyNat (48 :: r.reverse)) = true
   | [], _ => by decide
   | c :: r', h => by
     have hc : c.toNat < 256 := c.toNat_lt
@@ -128,9 +129,9 @@ theorem n1Key_keyNat_rev : ∀ (r : Bytes), (∀ u ∈ r, u = 78 ∨ u = 49 ∨ 
     have e1 : (keyNat (48 :: r'.reverse) * 256 + c.toNat) % 256 = c.toNat := by omega
     have e2 : (keyNat (48 :: r'.reverse) * 256 + c.toNat) / 256 = keyNat (48 :: r'.reverse) := by omega
     rw [e1, e2, n1Key_keyNat_rev r' (fun u hu => h u (List.mem_cons_of_mem _ hu))]
-    rcases h c List.mem_cons_self with rfl | rfl | rfl <;> rfl
+    rcases h c List.mem_cons_self with rfl | rfl | rfl | rfl | rfl | rfl <;> rfl
 
-theorem n1Key_keyNat (us : Bytes) (h : ∀ u ∈ us, u = 78 ∨ u = 49 ∨ u = 86) : n1Key us.length (keyNat (48 :: us)) = true := by
+theorem n1Key_keyNat (us : Bytes) (h : ∀ u ∈ us, u = 78 ∨ u = 49 ∨ u = 86 ∨ u = 44 ∨ u = 63 ∨ u = 58) : n1Key us.length (keyNat (48 :: us)) = true := by
   have := n1Key_keyNat_rev us.reverse (fun u hu => h u (by simpa using hu))
   simpa using this
 
@@ -169,27 +170,29 @@ theorem fp_lookup (fp : Bytes) (hcls : ∀ c ∈ fp, c = 0 ∨ isClassU8 c = tru
     simpa using hl
 
 /-- **a fingerprint made of empty slots, numbers, barewords and variables is never blacklisted** -/
-theorem n1_not_blacklisted (fp : Bytes) (h : ∀ c ∈ fp, c = 0 ∨ c = 49 ∨ c = 110 ∨ c = 118) : searchKeyword (fpKey fp) ≠ 70 := by
+theorem n1_not_blacklisted (fp : Bytes) (h : ∀ c ∈ fp, c = 0 ∨ c = 49 ∨ c = 110 ∨ c = 118 ∨ c = 44 ∨ c = 63 ∨ c = 58) :
+    searchKeyword (fpKey fp) ≠ 70 := by
   intro hb
   have hcls : ∀ c ∈ fp, c = 0 ∨ isClassU8 c = true := by
     intro c hc
-    rcases h c hc with e | e | e | e
+    rcases h c hc with e | e | e | e | e | e | e
     · exact Or.inl e
-    · right; rw [e]; decide
-    · right; rw [e]; decide
-    · right; rw [e]; decide
+    all_goals (right; rw [e]; decide)
   obtain ⟨h1, h5, hall⟩ := blacklisted_alphabet fp hcls hb
   have hl := fp_lookup fp hcls hb
   have hm := lookupIn_some_mem _ _ _ _ hl
   have hbad := List.all_eq_true.mp benign_fingerprints_absent_table _ hm
-  have hus : ∀ u ∈ fp.map upperAscii, u = 78 ∨ u = 49 ∨ u = 86 := by
+  have hus : ∀ u ∈ fp.map upperAscii, u = 78 ∨ u = 49 ∨ u = 86 ∨ u = 44 ∨ u = 63 ∨ u = 58 := by
     intro u hu
     obtain ⟨c, hc, rfl⟩ := List.mem_map.mp hu
-    rcases h c hc with e | e | e | e
+    rcases h c hc with e | e | e | e | e | e | e
     · have := hall c hc; rw [e] at this; exact absurd this (by decide)
     · right; left; rw [e]; decide
     · left; rw [e]; decide
-    · right; right; rw [e]; decide
+    · right; right; left; rw [e]; decide
+    · right; right; right; left; rw [e]; decide
+    · right; right; right; right; left; rw [e]; decide
+    · right; right; right; right; right; rw [e]; decide
   have hk := n1Key_keyNat (fp.map upperAscii) hus
   simp only [List.length_map] at hk
   have h2 : Nat.ble 2 (fp.length + 1) = true := by simp only [Nat.ble_eq]; omega
